@@ -2,7 +2,7 @@
    The model find_task_full_name is total on arbitrary text; the component views
    ns_parts / local_parts are the splits the code itself performs. *)
 From Coq Require Import List Ascii String Bool Permutation.
-From TC Require Import PyStr Dict Value Param Names NamesProofs Chain ChainProofs.
+From TC Require Import PyStr Dict Value Param Names NamesProofs NamesWfProofs Chain ChainProofs.
 Import ListNotations.
 
 (* resolution never depends on the order in which tasks were declared *)
@@ -82,3 +82,46 @@ Theorem C10_ambiguous_input_is_an_error : forall classes ns names acc d n0,
   resolve_one classes ns names acc d = inr EAmbiguous.
 Proof. exact resolve_one_ambiguous. Qed.
 Print Assumptions C10_ambiguous_input_is_an_error.
+
+(* ---- well-formed names: namespaces, group levels and the task name are non-empty texts without ':' ---- *)
+
+(* the splits the code performs recover exactly the components a name was built from *)
+Theorem C10_components_of_a_name : forall ns gs n,
+  wf ns gs n -> ns_parts (render ns gs n) = ns /\ local_parts (render ns gs n) = gs ++ [n].
+Proof. intros ns gs n W. split; [now apply ns_parts_render|now apply local_parts_render]. Qed.
+Print Assumptions C10_components_of_a_name.
+
+(* a query addresses a task iff the task name is the same, the groups are the same or the query names none, and
+   the namespaces are the same or the query names none (the latter only for lookups from a chain) *)
+Theorem C10_match_by_components : forall det qns qgs qn tns tgs tn,
+  wf qns qgs qn -> wf tns tgs tn ->
+  task_name_match det (render qns qgs qn) (render tns tgs tn) = true <->
+  ((qns <> [] \/ det = false) -> tns = qns) /\ tn = qn /\ (qgs = [] \/ tgs = qgs).
+Proof. exact match_by_components. Qed.
+Print Assumptions C10_match_by_components.
+
+(* every task is addressed by its full name, whatever else is in the chain *)
+Theorem C10_full_name_resolves : forall det ts t,
+  In t ts -> (forall u, In u ts -> wf_name u) -> find_task_full_name det t ts = inl t.
+Proof. exact full_name_resolves. Qed.
+Print Assumptions C10_full_name_resolves.
+
+(* the full name and the three shorter forms match the task (without namespace: from a chain); together with
+   C10_unique_match_resolves a shorter form that matches nothing else resolves to it *)
+Theorem C10_short_forms_match : forall det tns tgs tn,
+  wf tns tgs tn ->
+  task_name_match det (render tns tgs tn) (render tns tgs tn) = true /\
+  task_name_match det (render tns [] tn) (render tns tgs tn) = true /\
+  (det = true -> task_name_match det (render [] tgs tn) (render tns tgs tn) = true /\
+                 task_name_match det (render [] [] tn) (render tns tgs tn) = true).
+Proof. exact short_forms_match. Qed.
+Print Assumptions C10_short_forms_match.
+
+Example C10_wf_example :
+  wf [lit "outer"; lit "n"] [lit "pkg"; lit "mod"] (lit "deep") /\
+  render [lit "outer"; lit "n"] [lit "pkg"; lit "mod"] (lit "deep") = lit "outer::n::pkg:mod:deep".
+Proof.
+  split; [|reflexivity].
+  constructor; [intros p [<-|[<-|[]]]|intros p [<-|[<-|[]]]|]; (split; [discriminate|]);
+    unfold colon; simpl; intuition discriminate.
+Qed.
